@@ -235,7 +235,7 @@ def gen_strings(ck):
 
 
 # ------------------------------------------------------------------ layer E: paths
-PATH_NAMES = ["a", "k", "d", "a b", "it's", "X", "", "1x", "a-b", "é", "size", "x"]
+PATH_NAMES = ["a", "k", "d", "a b", "it's", "X", "", "1x", "a-b", "é", "size", "x", "2024", "007", "-1"]
 PATH_TOK = re.compile(r"\[\s*(?P<idx>-?\d+)\s*\]|\[\s*(?P<q>[\"'])(?P<str>.*?)(?P=q)\s*\]|(?P<lb>\[)|(?P<rb>\])|(?P<dot>\.)|(?P<word>[\w-]+\??)", re.S)
 
 
